@@ -7,14 +7,15 @@ def units(tier):
     u.stub_undefined = True; u.tool_c = ['vf_rbtree.c']; u.tv = False
     return [u]
 def harnesses(tier):
-    A = ['point: any finite doubles; logical values are read with the documented 0.5 threshold; alldiff over integer-valued points',
+    A = ['point: any finite doubles; logical values are read with the documented 0.5 threshold; alldiff compares the values rounded to the nearest integer (points within +-1e15)',
          'compare-only evaluators: the reference value is computed in the harness with comparisons only, so every double is decided bit-precisely; bodies of algebraic constraints have one term with coefficient 1 (no rounding in body evaluation)']
     hs = []
     for k in sorted(NAMES):
         for nv in ((3,) if tier == 'quick' else (2, 3, 4)):
             if k in (2, 6, 3, 10) and nv != 3: continue
+            if k == 9: nv = 2 if tier == 'quick' else nv      # rounding of every argument is bit-blasted: two arguments in the quick tier
             h = Harness('h_value', 'eval', unwind=nv + 3, timeout=300 if tier == 'quick' else 1200, mem_gb=16, defines=['KIND=%d' % k, 'NV=%d' % nv], tv_cases=0,
-                        bounds='%s over %d variables, every finite point' % (NAMES[k], nv), assumptions=A, flags=['--object-bits', '10'],
+                        bounds='%s over %d variables, every finite point' % (NAMES[k], nv), assumptions=A, flags=['--object-bits', '10'], backend='cadical' if k == 9 else 'sat',
                         claims='ComputeValue(%s) equals the mathematical definition at every point' % NAMES[k])
             h.label = 'h_value[%s,n%d]' % (NAMES[k], nv); hs.append(h)
     for c, nm in ((-2, 'lt'), (-1, 'le'), (0, 'eq'), (1, 'ge'), (2, 'gt')):
